@@ -34,7 +34,7 @@ func (e *signhistEngine) Property() string { return "C03" }
 
 func (e *signhistEngine) Plan(seed uint64, tier string) int {
 	if tier == "thorough" {
-		return 300000
+		return 1500000
 	}
 	return 24000
 }
